@@ -161,7 +161,7 @@ class Src:
         return pub_fields(t)
 
     def const(self, name):
-        m = re.search(r'^(pub(\([a-z]+\))? )?const ' + name + r': [A-Za-z0-9_]+ = [^;]+;', self.text, re.M)
+        m = re.search(r'^(pub(\([a-z]+\))? )?const ' + name + r": (?:&(?:'static )?)?[A-Za-z0-9_]+ = [^;]+;", self.text, re.M)
         if not m:
             raise Undecided('lost anchor: const %s in %s' % (name, self.rel))
         self.manifest.add(file='lib/src/' + self.rel, name='const ' + name, first_line=self._line(m.start()),
@@ -335,6 +335,30 @@ def extend_to_env(s, rewrites=None):
             rewrites.append('D22 extend of %s by %s' % (re.sub(r'\s+', '', m.group(1)), m.group(2)))
         return 'vec_extend(&mut %s, %s)' % (re.sub(r'\s+', '', m.group(1)), m.group(2))
     return rx.sub(rep, s)
+
+
+def ref_iter_to_index_loop(s, rewrites=None):
+    """D23: `for x in &PLACE { BODY }` over a collection place (BTreeSet, Vec, ...) becomes
+        let mut idx_x: usize = 0; while idx_x < iter_len(&PLACE) { let x = iter_nth(&PLACE, idx_x); BODY idx_x += 1; }
+    where `iter_len` / `iter_nth` are environment functions the unit declares for the collection type, standing for its
+    `IntoIterator for &C`: the elements in iteration order, each once. Same no-`continue` condition as D15."""
+    rx = re.compile(r'^([ \t]*)for (\w+) in &((?:self\.)?\w+(?:\.\w+)*) \{', re.M)
+    while True:
+        m = rx.search(s)
+        if not m:
+            return s
+        ind, x, v = m.group(1), m.group(2), m.group(3)
+        i = 'idx_' + x
+        ob = m.end() - 1
+        cb = _match(s, ob, '{', '}')
+        body = s[ob + 1:cb]
+        if re.search(r'\bcontinue\b', body) or re.search(r'\b' + i + r'\b', s):
+            raise Undecided('unsupported construct: D23 not applicable to the loop over &%s' % v)
+        new = ('%slet mut %s: usize = 0;\n%swhile %s < iter_len(&%s) {\n%s    let %s = iter_nth(&%s, %s);%s\n%s    %s += 1;\n%s}'
+               % (ind, i, ind, i, v, ind, x, v, i, body.rstrip(), ind, i, ind))
+        if rewrites is not None:
+            rewrites.append('D23 by-reference loop over %s' % v)
+        s = s[:m.start()] + new + s[cb + 1:]
 
 
 def position_to_loop(s, rewrites=None):
